@@ -735,7 +735,8 @@ func envStr(name, def string) string {
 }
 
 var c04b = &modelCheck{
-	Prop: "C04",
+	Prop:         "C04",
+	NestedChoice: 20,
 	Opts: modelOpts{
 		Mine:         gen.MineOpts{MaxHoles: 2, MaxDots: 3, DotsBias: true},
 		MaxHostLines: 200,
